@@ -101,7 +101,7 @@ def c15_run(desc):
     s = sc.Scratch("c15")
     try:
         T15 = TARGETS15_LONG if desc.get("names") == "long" else TARGETS15
-        r = sc.Repo(s, "r", T15, commands={t["path"]: {"build": "x"} for t in T15}, init_git=False)
+        r = sc.Repo(s, "r", T15, commands={t["path"]: {"build": "x", "test": "x"} for t in T15}, init_git=False)
         if desc.get("foreign"):
             r.foreign_cwd()   # listener and run are both invoked as -f <abs config> from an unrelated directory
         c = ctlmod.Controller(s)
@@ -117,7 +117,8 @@ def c15_run(desc):
                 # the listener is suspended: the run's connection is accepted by the kernel but the
                 # filter line never comes; then the listener is killed while the run is waiting for it
                 os.kill(lis.p.p.pid, signal.SIGSTOP)
-            argv_, cwd_ = r.cmdline("run", "-c", "build", "-t", *([t["path"] for t in T15] + ["--deps"]))
+            cmds15 = ["build", "test"] if desc.get("ncmd") == 2 else ["build"]
+            argv_, cwd_ = r.cmdline("run", "-c", *(cmds15 + ["-t"] + [t["path"] for t in T15] + ["--deps"]))
             p = c.spawn("run", argv_, cwd_, s.env(c.env()))
             killed = fate == "before_run"
             if lis is not None and fate == "during_handshake":
@@ -132,7 +133,7 @@ def c15_run(desc):
                     killed = True
 
             def say(ch, k):
-                cmd, t = "build", os.path.relpath(ch.cwd, r.dir)
+                cmd, t = os.path.basename(ch.argv[0]).split(".")[0], os.path.relpath(ch.cwd, r.dir)
                 c.send(ch, ["out " + burst("stdout", t, cmd, k).hex(), "err " + burst("stderr", t, cmd, k).hex()])
                 c.wait_acks(ch, 10)
 
@@ -212,6 +213,19 @@ def c15_run(desc):
                     pause()
             for ch in g2:
                 c.release(ch, 0)
+            if len(cmds15) == 2:
+                # the second command of the same invocation: both groups once more (whatever happened to
+                # the listener happened during the first command)
+                for need in (2, 1):
+                    c.wait(lambda: len(c.waiting()) >= need or p.done(), 15)
+                    grp = sorted(c.waiting(), key=lambda ch: ch.cwd)
+                    for k in (0, 1):
+                        for ch in grp:
+                            say(ch, k)
+                        pause()
+                    for ch in grp:
+                        c.release(ch, 0)
+                    c.wait(lambda: all(ch.state == "gone" for ch in grp) or p.done(), 10)
             c.wait(lambda: p.done(), 20)
             hung = not p.done()
             if hung:
@@ -256,6 +270,11 @@ def c15_scenarios(tier):
     # clean SIGTERM variant
     for fate in FATES[1:]:
         out.append({"listener": ["--stdout", "--stderr"], "fate": fate, "term": True})
+    # two commands in one invocation; the listener's fate is met during the first one
+    for f in FATES:
+        out.append({"listener": None, "fate": f, "ncmd": 2})
+        for cfg in ([["--stdout", "--stderr"]] if tier == "quick" else [["--stdout", "--stderr"], ["--stderr", "-c", "test"], ["--stdout", "-t", "a"]]):
+            out.append({"listener": cfg, "fate": f, "ncmd": 2})
     # listener and run invoked as -f <abs config> from an unrelated directory
     out.append({"listener": None, "fate": "never", "foreign": True})
     out.append({"listener": None, "fate": "mid_output", "foreign": True})
@@ -548,7 +567,7 @@ def run(prop, tier):
         errs = [r["engine_error"] for r in results if "engine_error" in r]
         if errs:
             raise common.EngineError("; ".join(errs[:2]))
-        bases = {(d["fate"], d.get("pattern"), d.get("names"), bool(d.get("foreign"))): r for d, r in zip(descs, results) if d["listener"] is None}
+        bases = {(d["fate"], d.get("pattern"), d.get("names"), bool(d.get("foreign")), d.get("ncmd")): r for d, r in zip(descs, results) if d["listener"] is None}
         for f, b in bases.items():
             if f[1] == "sibling-fails":
                 if b.get("exit") != 1 or b.get("failed") is not True:
@@ -564,7 +583,7 @@ def run(prop, tier):
                 continue
             if r.get("listener_saw"):
                 nontrivial += 1
-            for sig, detail in c15_compare(d, r, bases[(d["fate"], d.get("pattern"), d.get("names"), bool(d.get("foreign")))]):
+            for sig, detail in c15_compare(d, r, bases[(d["fate"], d.get("pattern"), d.get("names"), bool(d.get("foreign")), d.get("ncmd"))]):
                 viol.append({"sig": sig, "detail": detail, "rank": FATES.index(d["fate"]) * 10 + len(d["listener"]), "case": {"c15": d}})
             if len(samples) < 5:
                 samples.append({"listener": d["listener"], "fate": d["fate"], "exit": r.get("exit"), "listener_bytes": r.get("listener_saw")})
@@ -604,7 +623,7 @@ def replay(prop, path):
     if "c15" in case:
         d = case["c15"]
         # the burst pattern depends on the fate: the baseline is replayed with the same pattern
-        base = c15_run({"listener": None, "fate": d["fate"], "pattern": d.get("pattern"), "names": d.get("names"), "foreign": d.get("foreign")})
+        base = c15_run({"listener": None, "fate": d["fate"], "pattern": d.get("pattern"), "names": d.get("names"), "foreign": d.get("foreign"), "ncmd": d.get("ncmd")})
         obs = c15_run(d)
         if "engine_error" in obs or "engine_error" in base:
             print("ENGINE:", obs.get("engine_error") or base.get("engine_error"))
